@@ -145,4 +145,10 @@ NoRawAccumulation == \A b \in Blocks : Policy(b) # "accum_raw"                  
 EmitHist == (EmitAt > 0 /\ TLCGet("level") = EmitAt) =>
                PrintT(<<"HIST", ToJson([h |-> hist, tot |-> tot.kind, out |-> out.kind])>>)
 LevelBound == TLCGet("level") <= EmitAt
+(* Lifecycle_pairs.cfg: every history of the shape  set X; run; linearise; set Y; run; linearise  - "linearised at  *)
+(* one point, then at another" for every ordered pair of points - as a CONSTRAINT on the recorded history.          *)
+OpKind(e) == IF e[1] \in {"totals", "check"} THEN "lin" ELSE e[1]
+PairPattern == <<"set", "run", "lin", "set", "run", "lin">>
+FollowsPairs == /\ Len(hist) <= Len(PairPattern)
+                /\ \A i \in 1 .. Len(hist) : OpKind(hist[i]) = PairPattern[i] /\ (hist[i][1] = "run" => hist[i][2] = "solve_first")
 =============================================================================
